@@ -136,6 +136,11 @@ func (k Keeper) Open(ctx sdk.Context, msg *types.MsgOpen) (*types.MsgOpenRespons
 		if err != nil {
 			return nil, err
 		}
+
+		// the hooks refresh the owner's membership tier, and with it the fee discount the position is valued with
+		if err = k.CheckMTPHealthAfterHooks(ctx, creator, mtp.Id, baseCurrency); err != nil {
+			return nil, err
+		}
 	}
 
 	return &types.MsgOpenResponse{
